@@ -18,6 +18,7 @@ INV = {
     'C11': ['Inv_C11_PhaseAllOrNothing', 'Inv_C11_Scope', 'Inv_C11_Reported', 'Inv_C11_NoWriteIfViolating', 'Inv_C11_ViolationReported'],
     'C14': ['Inv_C14_SameAsInline'],
     'C15': ['Inv_C15_SameAsLocal', 'Inv_C15_PhaseObjectFaithful', 'Inv_C15_PhaseObjectLifetime', 'Inv_C15_PausePropagation'],
+    'C12': ['Inv_C12_InformerIffOwned', 'Inv_C12_HandlersAttached', 'Inv_C12_ReadUnwatchedFails', 'Inv_C12_MatchesReferenceModel'],
     'C19': ['Inv_C19_NoPanic'],
 }
 
@@ -94,12 +95,14 @@ def g_dep_archive(e):
     return e['actor'] in ('od', 'cod') and ((e['ev'] == 'Update' and e['args']['body']['cr']['lifecycle'] == 'Archived') or e['ev'] == 'Delete')
 
 
-GUARDS = {'C15': lambda e: e['ev'] in ('Create', 'Delete', 'MergePatch') and e['key'].startswith('ObjectSetPhase/') and e['actor'] == 'os' or (e['ev'] == 'Quiesced' and e['args'].get('diff') == 'c15'),
+GUARDS = {'C12': lambda e: e['ev'] in ('C12Op', 'C12Quiescent'),
+          'C15': lambda e: e['ev'] in ('Create', 'Delete', 'MergePatch') and e['key'].startswith('ObjectSetPhase/') and e['actor'] == 'os' or (e['ev'] == 'Quiesced' and e['args'].get('diff') == 'c15'),
           'C14': lambda e: (e['ev'] == 'Quiesced' and e['args'].get('diff') == 'c14') or (e['ev'] == 'Get' and e['key'].startswith('ObjectSlice/')),
           'C10': lambda e: e['ev'] == 'Quiesced' and e['args'].get('hasRef') and e['args'].get('fired', 0) > 0, 'C07': g_dep_create, 'C08': g_dep_archive, 'C01': g_c01, 'C02': g_c02, 'C03': g_probefail, 'C04': g_teardown_write, 'C05': g_teardown_write, 'C06': g_status,
           'C09': g_paused, 'C11': g_preflight}
 
 RULES = {
+    'C12': 'one case = one operation sequence (Watch/Free/Get/List/OwnersForGKV with scripted informer start-up failures) executed on the real dynamiccache.Cache, or one concurrent stress run; distinct by the sequence of operations and results',
     'C15': 'non-trivial: the ObjectSet controller created/patched/deleted an ObjectSetPhase object, or a delegated variant of the staged scenario was compared stage by stage with the in-process run; distinct by event sequence',
     'C14': 'non-trivial: an ObjectSlice was loaded, or a sliced variant of the staged scenario was compared stage by stage with the inline run; distinct by event sequence',
     'C10': 'one case = one staged scenario run with one (or two) disturbances (API fault before/after effect, crash, drift) injected at a given API-call index; non-trivial if the disturbance actually fired; distinct by event sequence',
@@ -265,6 +268,17 @@ CHECKS = {
                  driver=['fault-sweep', '-n', '60' if tier == 'quick' else '0', '-seed', str(seed)]),
             dict(name='fault-pairs', shards=4 if tier == 'quick' else 14,
                  driver=['fault-sweep', '-mode', 'pairs', '-n', '20' if tier == 'quick' else '400', '-seed', str(seed)])]),
+    'C12': dict(level='model_checking', invariants=INV['C12'], module='TraceDynCache',
+                assumptions=['scripted informer map and stub informers replace client-go informers; the Cache, its locking, reference bookkeeping and cache source are the real code',
+                             'concurrent callers: only data races (go -race is not used in the quick tier) and the quiescent end state are checked, intra-lock interleavings are reached by chance'],
+                mc=lambda tier: [dict(name='dyncache', kind='plain', module='MC_DynCache', cfg='MC_DynCache_intended.cfg')],
+                jobs=lambda tier, seed: [
+                    dict(name='c12-enum', module='TraceDynCache', shards=4 if tier == 'quick' else 14,
+                         driver=['c12-seq', '-mode', 'enum', '-steps', '3' if tier == 'quick' else '4']),
+                    dict(name='c12-random', module='TraceDynCache', shards=4 if tier == 'quick' else 14,
+                         driver=['c12-seq', '-mode', 'random', '-n', '400' if tier == 'quick' else '20000', '-steps', '14', '-seed', str(seed)]),
+                    dict(name='c12-stress', module='TraceDynCache', shards=4 if tier == 'quick' else 14,
+                         driver=['c12-stress', '-n', '40' if tier == 'quick' else '2000', '-steps', '60', '-seed', str(seed)])]),
     'C14': dict(level='model_checking', assumptions=ASSUME,
                 invariants=INV['C14'] + INV['C03'] + INV['C04'] + INV['C05'] + INV['C06'] + ['Inv_C09_NoWritesWhilePaused'],
                 jobs=lambda tier, seed: [
